@@ -1,6 +1,7 @@
 //! mc — bounded-exhaustive model checker harness for lol-html (see /verif/DESIGN.md).
 
 mod alpha;
+mod cdrive;
 mod common;
 mod docgen;
 mod drive;
@@ -39,6 +40,10 @@ fn main() {
                 let n: usize = args.get(i + 3).and_then(|s| s.parse().ok()).unwrap_or_else(|| usage());
                 drive::silence_panics();
                 std::process::exit(props::c15::shape_child(&shape, n));
+            }
+            "--lifecycle-child" => {
+                drive::silence_panics();
+                std::process::exit(props::c17::lifecycle_child());
             }
             "--replay" => {
                 replay = Some(args.get(i + 1).cloned().unwrap_or_else(|| usage()));
